@@ -68,6 +68,7 @@ func laneParams(recv bool) []string {
 
 func propC20(c *Ctx) {
 	c.Clauses = append(c.Clauses,
+		"no fallible call of the fee checker loses its error on an admitting path (the chain floor cannot drop out through a failed params read)",
 		"fee gate: the insufficient-fee error is reachable only with IsCheckTx, a non-zero combined floor and !fee.IsAnyGTE(required) (any-denom predicate); required = computeRequiredFees(tx gas, CombinedMinGasPrices(node prices, chain prices)); outside CheckTx or with an all-zero floor nothing is enforced",
 		"CombinedMinGasPrices: per chain price, a zero node price adds the chain price, a node price strictly below the chain price (relation {<}) is raised by the difference, otherwise unchanged (pointwise maximum); computeRequiredFees charges Ceil(price * gas) per denom",
 		"system lane: true only for exactly one message that is MsgUpdateOracle, or one authz MsgExec whose GetMessages succeeded with exactly one MsgUpdateOracle",
